@@ -1550,6 +1550,24 @@ fn source_sets(r: &mut Rng, n: usize) -> Vec<Vec<String>> {
         let q2 = serde_json::to_string(names[(i + 1) % names.len()]).unwrap();
         out.push(vec![format!("[{{{q}:1,{q2}:\"s\"}},{{{q}:2}}]")]);
     }
+    // SMALL SCOPE for the generator: every pair and triple of nine small object documents as a source set, bare
+    // and below a member / inside an array
+    {
+        let objs = [
+            "{}", "{\"a\":1}", "{\"a\":null}", "{\"a\":\"s\"}", "{\"b\":true}", "{\"a\":1,\"b\":2}", "{\"a\":[1]}", "{\"a\":{\"c\":1}}",
+            "{\"a\":[1,\"x\"]}",
+        ];
+        for x in objs {
+            for y in objs {
+                out.push(vec![x.to_string(), y.to_string()]);
+                out.push(vec![format!("{{\"m\":{x},\"n\":{y}}}")]);
+                out.push(vec![format!("[{x},{y}]")]);
+                for z in objs {
+                    out.push(vec![x.to_string(), y.to_string(), z.to_string()]);
+                }
+            }
+        }
+    }
     for i in 0..n {
         let h = if i % 2 == 0 { clean_history(r) } else { rand_history(r, &keys) };
         let style = if i % 7 == 0 { 2 } else { 0 };
